@@ -64,6 +64,9 @@ func runC10(c *core.Ctx) {
 	h.valueSetOrder("C10.1 value.set order")
 	h.syncDirSyncs("C10.1b syncDir")
 	h.setterPersistThenPublish("C10.1b persist-then-publish", "raft:(*storage).setTerm", ">")
+	// compaction deletes whole segments from the front, each unlinked before its file goes (what a crash between two deletions leaves must still be a log that opens with its tail)
+	h.unlinkBeforeRemove("C10.13 unlink-before-remove")
+	h.frontRemovalWholeSegments("C10.13b front-removal")
 	h.setterPersistThenPublish("C10.1b persist-then-publish", "raft:(*storage).setVotedFor", ">=")
 	c.Clause("C10.2 snapshotSink.done publish order")
 	h.sinkPublishOrder("C10.2 sink-publish")
